@@ -20,6 +20,7 @@ import (
 	"strconv"
 	"strings"
 	"sync"
+	"sync/atomic"
 	"time"
 
 	"github.com/safing/portbase/log"
@@ -110,8 +111,13 @@ func genSpec(r *hxlib.Run, rng *rand.Rand, kind string) Spec {
 	case "paced-notrigger": // only forced emptying and Shutdown ever write
 		s.Paced, s.TriggerUs = true, 0
 		np = 1 + rng.Intn(4)
-		items = 10 + rng.Intn(700)
+		items = 10 + rng.Intn(2500)
 		pSleep = 0
+	case "paced-flood": // slow trigger, more lines than the buffer holds: forced emptying races the trigger
+		s.Paced, s.TriggerUs = true, 2000+rng.Intn(20000)
+		np = 1 + rng.Intn(6)
+		items = 800 + rng.Intn(r.Budget(1500, 4000))
+		pSleep, pTr = 0, 0.01
 	case "levels":
 		np = 2 + rng.Intn(5)
 		items = 40 + rng.Intn(200)
@@ -169,6 +175,11 @@ func genSpec(r *hxlib.Run, rng *rand.Rand, kind string) Spec {
 	if rng.Intn(5) == 0 {
 		s.Quiesce = false
 	}
+	for _, g := range []string{"start-twice", "shutdown-twice", "nil-adapter", "late-adapter", "pre-start", "nil-tracer", "concurrent-shutdown"} {
+		if rng.Intn(6) == 0 {
+			s.Glue = append(s.Glue, g)
+		}
+	}
 	for g := 0; g < np; g++ {
 		var prog []Op
 		item := 0
@@ -218,7 +229,7 @@ func genSpec(r *hxlib.Run, rng *rand.Rand, kind string) Spec {
 	return s
 }
 
-var childMu sync.Mutex
+var sawTimeout atomic.Bool
 
 // runChild executes the scenario in a fresh process and returns the recorded trace lines.
 func runChild(s Spec) ([]string, error) {
@@ -305,8 +316,8 @@ func generate(r *hxlib.Run, emit func(hxlib.Case)) {
 	emit(hxlib.Case{Lines: []string{"w token token"}, Kind: "malformed"})
 	emit(hxlib.Case{Lines: []string{"w token unset slot W:1:3:1:0:0", "p 0 1 line enq won tokFull ret", "p 0 1 line enq won ret"}, Kind: "malformed"})
 	// (3) scenarios on the real logger, child process each
-	kinds := []string{"basic", "dups", "overflow", "burst", "paced", "paced-notrigger", "levels", "mid", "tracer", "yield", "many"}
-	n := r.Budget(110, 1500)
+	kinds := []string{"basic", "dups", "overflow", "burst", "paced", "paced-notrigger", "paced-flood", "levels", "mid", "tracer", "yield", "many"}
+	n := r.Budget(216, 1800)
 	type job struct {
 		kind string
 		spec Spec
@@ -327,7 +338,17 @@ func generate(r *hxlib.Run, emit func(hxlib.Case)) {
 		results[i] = make(chan res, 1)
 		go func(i int) {
 			sem <- struct{}{}
+			if sawTimeout.Load() {
+				jobs[i].spec.QuiesceMs = 1500 // a delivery timeout is already a violation: do not spend 20 s on each further one
+			}
 			l, err := runChild(jobs[i].spec)
+			if err == nil {
+				for _, x := range l {
+					if strings.HasPrefix(x, "meta ") && strings.Contains(x, "quiesce=timeout") {
+						sawTimeout.Store(true)
+					}
+				}
+			}
 			<-sem
 			results[i] <- res{l, err}
 		}(i)
@@ -340,9 +361,12 @@ func generate(r *hxlib.Run, emit func(hxlib.Case)) {
 			emit(hxlib.Case{Lines: []string{"scenario " + string(js), "childfail " + strings.ReplaceAll(rs.err.Error(), "\n", " ")}, Kind: "scenario-" + jobs[i].kind, NoModel: true})
 			continue
 		}
-		lines := append([]string{"scenario " + string(js), fmt.Sprintf("np %d", len(jobs[i].spec.Prods))}, rs.lines...)
+		lines := append([]string{"scenario " + string(js)}, rs.lines...)
 		lines = append(lines, "check")
 		st := parseRun(lines)
+		for _, g := range jobs[i].spec.Glue {
+			r.Count("glue:" + g)
+		}
 		r.Count(fmt.Sprintf("producers:%s", bucket(len(jobs[i].spec.Prods), []int{1, 2, 4, 8, 16, 32})))
 		r.Count(fmt.Sprintf("lines-accepted:%s", bucket(st.meta["lines"], []int{0, 10, 100, 1024, 2048, 5000, 20000})))
 		r.Count(fmt.Sprintf("adapter-writes:%s", bucket(st.meta["writes"], []int{0, 10, 100, 1024, 5000, 20000})))
@@ -694,9 +718,10 @@ func explain(cls string) string {
 
 type execT struct {
 	lines []string
+	cfgs  map[string]bool
 }
 
-func newExec(r *hxlib.Run) hxlib.Exec { return &execT{} }
+func newExec(r *hxlib.Run) hxlib.Exec { return &execT{cfgs: map[string]bool{}} }
 
 func (e *execT) Do(line string) string {
 	f := strings.Fields(line)
@@ -707,7 +732,10 @@ func (e *execT) Do(line string) string {
 	switch f[0] {
 	case "scenario", "np", "cfg", "item", "out", "meta":
 		// recorded facts about the real run; well-formedness is the model driver's business too
-		if wellFormed(f) {
+		if f[0] == "cfg" && len(f) == 5 {
+			e.cfgs[f[1]] = true
+		}
+		if e.wellFormed(f) {
 			return "ok"
 		}
 		return "bad-op"
@@ -725,14 +753,14 @@ func (e *execT) Do(line string) string {
 	return "bad-op"
 }
 
-func wellFormed(f []string) bool {
+func (e *execT) wellFormed(f []string) bool {
 	switch f[0] {
 	case "item":
 		if len(f) < 7 {
 			return false
 		}
 		for _, s := range strings.Split(f[6], ",") {
-			if strings.HasPrefix(s, "9:") { // the malformed case: unknown configuration id
+			if i := strings.IndexByte(s, ':'); i > 0 && !e.cfgs[s[:i]] { // unknown configuration id
 				return false
 			}
 		}
